@@ -224,6 +224,10 @@ func (x *c20SX) zero(t types.Type) c20V {
 			}
 		}
 		return c20V{k: c20kNil}
+	case *types.Array:
+		if b, ok := u.Elem().Underlying().(*types.Basic); ok && b.Kind() == types.Uint8 {
+			return c20V{k: c20kBytes, tag: "array", typ: t} // a local byte array: only usable as scratch[:0]
+		}
 	case *types.Pointer:
 		return c20V{k: c20kNil, typ: t} // a typed nil pointer (see toIface)
 	case *types.Interface, *types.Map, *types.Chan, *types.Signature:
